@@ -12,6 +12,7 @@ Clauses(rec) ==
   \cup If(rec.obs.panicked, "C15_no_crash")
   \cup If(o.res = "accepted" /\ i.forged, "C15_forged_candidate_refused")
   \cup If(~i.forged /\ ~GetterFailed(i, o) /\ i.badMid = 0 /\ o.res # "accepted", "C15_candidate_with_verifiable_path_accepted")
+  \cup If(GetterFailed(i, o) /\ o.res # "refused", "C15_candidate_whose_intermediates_cannot_be_fetched_is_refused")
   \cup If(Len(o.calls) > Bound(i.d), "C15_bounded_number_of_getter_requests")
   \cup If(~PromotedVerified(i, o), "C15_only_verified_intermediates_promoted")
   \cup If(o.res = "refused" /\ rec.obs.headIsCandidate, "C15_refused_candidate_never_becomes_sync_target")
